@@ -189,6 +189,10 @@ PROPS['C16'] = {
                    'Not decided: anything depending on the ping thread racing the network thread; onAuthed (thread start) and the socket '
                    'dispatcher are not under contract.',
     'assumptions': ['the dispatcher object, getProp, emitEvent/broadcastEvent/toUpper and the entity parsers are opaque events',
+                    'opaque events do not re-enter the layer: the asyncore dispatcher reports a close synchronously from disconnect() '
+                    '(handle_close -> onDisconnected), so after destroyConnection the real state is already DISCONNECTED; the contract '
+                    'therefore pins the state at the MOMENT of dispatcher.disconnect (DISCONNECTING, reason stored) and each handler '
+                    'separately, not their nesting',
                     'threading.Lock sequential model (from C12)', 'event delivery order between layers is taken from C18'],
 }
 
